@@ -169,7 +169,7 @@ static inline iora_sv hm_te_token(const iora_sv *v, size_t a, size_t len)
  * the recorded token of v (or the empty default string) and hands the real bytes to ciEquals */
 static inline iora_sv hm_te_last(const iora_sv *v, iora_sv lastToken)
 {
-  if (!HL.has_last) { IORA_ASSERT(lastToken.n == 0, "accessor: no token was taken, lastToken is the empty default"); return (iora_sv){ iora_empty_str, 0 }; }
+  if (!HL.has_last) { IORA_ASSERT(lastToken.n == 0, "accessor: no token was taken, lastToken is the empty default"); return (iora_sv){ v->p, 0 }; }
   IORA_ASSERT(lastToken.p == v->p + HL.lt_a && lastToken.n == HL.lt_n, "accessor: lastToken is the recorded token of v");
   return (iora_sv){ v->p + HL.lt_a, HL.lt_n };
 }
